@@ -34,9 +34,11 @@ RULE = ("export cases: images of kind gray-8 / RGB-8 / 1-bit / DCT with widths c
         "non-trivial when it is a distinct input with >= 1 image whose sample array is not constant")
 TRUSTED_BASE = [
     "hand model lean/PdfVerif/Model/Image.lean of image.py (export_image format choice, BMPWriter, _save_bmp/_save_jpeg/"
-    "_save_raw, _create_unique_image_name) and Model/Inline.lean of PDFContentParser.get_inline_data - both "
-    "correspondence-checked byte for byte on every generated case",
-    "tools/translate for align32 (Gen/ImageGen.lean), also run against the Python original",
+    "_save_raw, _create_unique_image_name), Model/Inline.lean of PDFContentParser.get_inline_data and Model/InlineDict.lean of "
+    "do_keyword(ID) / inline_image_size / do_EI / LTImage.__init__ - all correspondence-checked on every generated case",
+    "tools/translate for align32, the bits->ncols chain, linesize/datasize/headersize, both struct.pack field lists, the "
+    "_save_bmp arguments of export_image, image_data_size, INLINE_IMAGE_COMPONENTS and the .jpg/.bmp extensions "
+    "(Gen/ImageGen.lean) - the translated definitions are what the theorems are about and are also run against pdfminer",
     "the Python BMP reader / encoders in tools/harness/imglib.py (reader checked equal to the Lean reader on every file)",
     "stream filter decoding itself belongs to C03; here the harness' encoders feed pdfminer's decoders and the decoded "
     "samples are compared",
@@ -54,10 +56,16 @@ STATEMENT_STATUS = {
     "C18_bmp_rt_pixelwise / C18_samples_pixelwise": "proved (same, against the index-based meaning of samples)",
     "C18_bmp_pinned_cex": "proved counter-example for the pinned writer (padding, R/B order)",
     "C18_jpeg_bytes": "proved",
+    "C18_raw_dump": "proved (kinds the property does not name: 2/4/16-bit, CMYK, Lab, ...: data dumped unchanged, fresh name)",
     "C18_names_distinct": "proved (with C18_export_fresh, C18_unique_name_terminates)",
-    "C18_inline_scan / C18_inline_scan_eof": "proved (consumed = data EOL EI ws; result = data++EOL minus one EOL)",
-    "C18_inline_capture_partial": "partial: excludes data ending in CR when the EOL is a bare LF",
-    "C18_inline_trailing_cr_cex": "proved counter-example (open finding inline-data-trailing-cr)",
+    "C18_inline_scan / C18_inline_scan_eof": "proved for every size hint (consumed = data EOL EI ws; result = finish hint (data++EOL))",
+    "C18_inline_capture / C18_inline_capture_eof": "proved in full for unfiltered images (size hint = data length): every EOL form, "
+                                                   "any last bytes",
+    "C18_inline_image / C18_inline_image_exported": "proved: BI..ID dictionary (abbreviated or full keys) -> pushed stream -> do_EI -> "
+                                                    "LTImage fields -> export_image -> readBMP = stored samples",
+    "C18_inline_capture_nohint_partial": "partial: payloads whose size the dictionary does not tell (filtered): excludes payload "
+                                         "ending in CR when the EOL is a bare LF",
+    "C18_inline_trailing_cr_cex": "proved counter-example (open finding inline-data-trailing-cr, filtered payloads only)",
 }
 
 
